@@ -55,6 +55,16 @@ CLAIMED = {
    "(a) reopen (drop, open) at every state of the graph (commits queued / logged / synced / half-applied files / several files pending): afterwards all accepted commits are present in order; (b) every crash image of every edge judged with lo = commits whose log file was fdatasync'ed before the crash point.",
    "Stepping mode (no threads): the threaded drop needs the loom engine (not built). Reindex-pending drops need the growth family (C09, not built).",
    "DESIGN.md §4 C03"),
+ "C12": ("crashmc", "fault_enumeration",
+   "exhaustive power-loss enumeration on recorded I/O traces: crash point x subset of unsynced 4 KiB pages of mapped files x length of the unsynced tail of appended files, recovery + prefix oracle with durability lower bound",
+   "For every crash point of every edge of the bounded state graph (see C02) the shadow file system keeps, per file, the content as of its last sync; every page dirtied since either reaches the disk or not (all subsets up to 8-10 dirty pages, else all subsets with <= 2 stale or <= 2 fresh pages) and the unsynced log tail is cut at synced length / field boundaries / full (every length in the thorough scenario). Each distinct image is recovered: it must equal S_j with j >= commits whose log was synced (taken from the fdatasync operations observed in the trace). Both 'equivalently' clauses are decided by this: a table page dirtied before its record's log is durable, or a log truncated/reused while a page it feeds is dirty, yields a failing image.",
+   "Fault model as stated by the property (pages of mapped files, prefix of appended bytes; namespace operations and truncations durable in program order). sync_wal = sync_data = true. Bounds per scenario.",
+   "DESIGN.md §3 E2 family 3, §4 C12"),
+ "C13": ("crashmc-logdamage", "fault_enumeration",
+   "exhaustive mutation of the log files of recorded crash images (every truncation length, bit flips, windows, tails, file deletion/swap/duplication, short files, stale generations) with recovery + bounded-prefix oracle",
+   "Base images with 2-3 log files (records partly enacted; two records in one file; recycled file; stale generation; multi-column) are damaged in every listed way; each distinct image must open without panic, equal S_j with enacted <= j <= last record whose bytes and predecessors' are intact, and keep accepting commits.",
+   "Quick: bit flips of bit 0 and 7 of every byte, aligned windows; thorough: every bit, every window offset, more bases. Known findings (recovery trusts the first log's record id: F-C13-oldest-pending-log-vanishes, F-C13-first-log-id-damaged, F-C13-stale-generation-reapplied) are reported, not failed. CRC collisions outside the bound.",
+   "DESIGN.md §3 E2 family 4, §4 C13"),
 }
 
 NOT_YET = {}
@@ -95,7 +105,7 @@ def main():
         "engines": [
             {"name": "seqmc-sweep", "path": "/verif/mc/src/props/c06.rs", "serves_properties": ["C06"], "kind_free_text": "exhaustive finite sweeps (lengths, overwrite sequences) over the real Db"},
             {"name": "pagemc", "path": "/verif/mc/src/props/c19.rs", "serves_properties": ["C19"], "kind_free_text": "exhaustive enumeration of index pages x keys x start positions against both page-search implementations"},
-            {"name": "crashmc", "path": "/verif/mc/src/crash.rs, /verif/mc/src/crashmc.rs", "serves_properties": ["C02", "C03"], "kind_free_text": "I/O trace recording by libc interposition + mmap store hook, shadow file system, exhaustive crash-image enumeration with recovery oracle"},
+            {"name": "crashmc", "path": "/verif/mc/src/crash.rs, /verif/mc/src/crashmc.rs", "serves_properties": ["C02", "C03", "C12", "C13"], "kind_free_text": "I/O trace recording by libc interposition + mmap store hook, shadow file system, exhaustive crash-image enumeration with recovery oracle"},
             {"name": "seqmc", "path": "/verif/mc", "serves_properties": sorted([k for k, v in CLAIMED.items() if "seqmc" in v[0]]),
              "kind_free_text": "bounded exhaustive graph search over histories x pipeline-stage schedules of the real Db in stepping mode, reference models, pipeline model PM in lock-step"},
         ],
